@@ -49,6 +49,7 @@ def _sq_units():
 
 
 HARNESSES = {
+    "dispatch": dict(units=[dict(src="dispatch.cpp")]),
     "closure": dict(units=[dict(src="closure.cpp")]),
     "iter": dict(units=[dict(src="iter.cpp")]),
     "seq": dict(units=_sq_units()),
@@ -285,6 +286,30 @@ PROPS["C07"] = dict(
                  "proxy-to-proxy assignment of xoptional<T&,B&> and assignment through const closures do not compile and are not generated"],
 )
 
+PROPS["C17"] = dict(
+    level="exploration",
+    batches=dict(
+        quick=[dict(harness="dispatch", build="san", runs=200000, wall_cap=600)],
+        thorough=[dict(harness="dispatch", build="san", runs=1500000, wall_cap=2400),
+                  dict(harness="dispatch", build="plain", runs=6000000, offset=1500000, wall_cap=2400)],
+    ),
+    rule=("a case is one seeded history (2-40 steps) against one dispatcher kind: functor_dispatcher over basic_dispatcher (1, 2, 3 arguments; dynamic and static casting) with insert/overwrite/erase/dispatch, "
+          "functor_dispatcher over basic_fast_dispatcher (1, 2, 3 arguments) with insert/overwrite/dispatch (per-class indices reset at the start of every run, one fast dispatcher per hierarchy), "
+          "static_dispatcher (antisymmetric and symmetric, a type list that omits one class so that on_error is reachable), acyclic visitors (default and throwing catch-all, visitors implementing subsets, const and non-const) and cyclic visitors. "
+          "The hierarchy has four concrete classes, one derived from another. Handlers record their id, the addresses of the arguments they receive in order and the address of the undispatched extra argument. "
+          "A dispatch must invoke exactly the handler the model holds for the tuple of dynamic types with exactly the caller's objects (swapped only under symmetric dispatch) and the extra argument itself, "
+          "or - when never registered, erased, or only another permutation is registered - report an error and run no handler. "
+          "Non-trivial: at least two state-changing steps (registrations, erasures or successful dispatches). Distinct: distinct run digests."),
+    probes=["dispatch_to_registered_tuple", "dispatch_to_unregistered_tuple", "only_other_permutation_registered", "registered_handler_erased", "handler_overwritten",
+            "three_argument_dispatch", "symmetric_swap_taken", "static_dispatch_on_error", "visit_dispatched", "const_visit_dispatched", "catch_all_taken",
+            "derived_visited_by_visitor_of_base_only", "cyclic_visit_dispatched"],
+    components=dict(real=["include/xtl/xmultimethods.hpp (static_dispatcher, basic_dispatcher, basic_fast_dispatcher, functor_dispatcher, casters)", "include/xtl/xvisitor.hpp (acyclic and cyclic visitors, catch-all policies)"],
+                    stub=["recording handlers, executors and visitors", "model map from type tuple to handler id", "class hierarchy of four concrete classes"]),
+    assumptions=["every class of the hierarchy carries its own XTL_IMPLEMENT_INDEXABLE_CLASS / XTL_DEFINE_VISITABLE", "static_dispatcher type lists are ordered most-derived first",
+                 "one fast dispatcher per hierarchy and run: the process-global class indices are reset through the public accessor at the start of every run",
+                 "an error is any of on_error, the catch-all policy, std::runtime_error or std::bad_function_call"],
+)
+
 PENDING = "claimed in DESIGN.md section 4 but its harness is not built yet in this tree; listed here until the check exists"
 NOT_APPLICABLE = {
     "C04": "pure function of the operands of one call (presence flags and values); no history, fault position, schedule or environment to simulate (DESIGN.md 5)",
@@ -355,6 +380,12 @@ MANIFEST_TEXT = {
         design_ref="4.9",
         note="the pure half is sampled evaluation of a pure function, not more; little-endian 64-bit platform only",
         technique="deterministic simulation: hash invariants over seeded histories, placement/alignment/stale-byte variation, independent reference implementation",
+    ),
+    "C17": dict(
+        text="seeded registration/erasure/dispatch histories against every dispatcher kind (map and fast functor dispatchers with 1-3 arguments and both casting policies, static dispatcher symmetric and antisymmetric, acyclic and cyclic visitors), with recording handlers: a dispatch must run exactly the handler the model holds for the tuple of dynamic types with the caller's own objects in registered order and the extra argument itself, or report an error and run nothing",
+        design_ref="4.10",
+        note="sampled histories over a four-class hierarchy; the fault dimension is the error path (lookups that must fail) and the lazily assigned process-global class indices",
+        technique="deterministic simulation: seeded registration/lookup histories against a reference map, error-path injection, reset of process-global state per run",
     ),
     "C20": dict(
         text="fault enumeration inside seeded histories: every /proc/self/exe target length 2..PATH_MAX-1 is delivered through the wrapped readlink (sweep configuration), each also with an injected error return, plus seeded random histories biased to the buffer boundaries; results compared byte for byte with the simulated target, under ASan/UBSan and in a plain build with a dirtied stack",
